@@ -567,7 +567,20 @@ std::string spell_expr(const Expr &x, bool top = true) {
         case Expr::Text: return x.lit;
         case Expr::Var: return "{var:" + x.p.text() + "}";
         default: {
-            std::string s = spell_expr(*x.l, false) + " " + x.op + " " + spell_expr(*x.r, false);
+            // parentheses only where the documented precedence does not already give this grouping:
+            // (* /) bind tighter than (+ -), which bind tighter than comparisons, which bind tighter than && ||;
+            // a left-nested chain of one and the same arithmetic operator is written without parentheses
+            auto group = [](const std::string &op) { return (op == "*" || op == "/") ? 1 : (op == "+" || op == "-") ? 2 : (op == "&&" || op == "||") ? 5 : 4; };
+            auto child = [&](const Expr &c, bool right) {
+                std::string t = spell_expr(c, false);
+                if (c.k != Expr::Bin) {
+                    return t;
+                }
+                bool tighter = group(c.op) < group(x.op);
+                bool chain   = (!right && c.op == x.op && group(x.op) <= 2);
+                return (tighter || chain) ? t.substr(1, t.size() - 2) : t; // strip the parentheses spell_expr(false) added
+            };
+            std::string s = child(*x.l, false) + " " + x.op + " " + child(*x.r, true);
             return top ? s : "(" + s + ")";
         }
     }
@@ -1020,7 +1033,7 @@ struct Gen {
             case 0:
             case 1: n->k = TNode::Var; n->path = gen_path(sc, true); kinds_mask |= 1; break;
             case 2: n->k = TNode::Raw; n->path = gen_path(sc, true); kinds_mask |= 2; break;
-            default: n->k = TNode::Math; n->expr = gen_arith(sc, 2); kinds_mask |= 4;
+            default: n->k = TNode::Math; n->expr = gen_arith(sc, 3); kinds_mask |= 4;
                 if (n->expr->k != Expr::Bin) { // a math tag holds an expression
                     auto b = std::make_unique<Expr>();
                     b->k   = Expr::Bin;
